@@ -59,10 +59,11 @@ Theorem C07_dissolved_le_applied : forall z (l : mineral_layer_in (T:=R)) (g : m
   let '(o, g') := mineral_layer z l g in mg_ums g <= mg_ums g' <= mg_dsumm g.
 Proof. exact ums_bounded_lemma. Qed.
 
-(* the frozen branch too, given the order of the parameters it interpolates between (what C15 establishes) *)
+(* the frozen branch too, given WMIN < WRED in the top layer — what C15 establishes on every parameter route
+   (C15_wred_between_file_route, _fraction, _restore and the generated table check) *)
 Theorem C07_dissolved_le_applied_frozen : forall z (l : mineral_layer_in (T:=R)) (g : mineral_glob (T:=R)),
   0 <= mg_ums g <= mg_dsumm g -> ml_tempbo l <= 0 ->
-  ml_wmin l < mg_wred g -> ml_w l < mg_porges0 g ->
+  ml_wmin l < mg_wred g ->
   let '(o, g') := mineral_layer z l g in mg_ums g <= mg_ums g' <= mg_dsumm g /\ mg_dsumm g' = mg_dsumm g.
 Proof. exact ums_bounded_frozen. Qed.
 
